@@ -2,6 +2,8 @@ package fdosim
 
 import (
 	"context"
+	"crypto/ecdsa"
+	"crypto/rsa"
 	"crypto/sha256"
 	"crypto/sha512"
 	"fmt"
@@ -164,6 +166,8 @@ func (p *c01) Prepare(t *testing.T, tier string, seed uint64) {
 				add(C01Plan{Attack: "rogueOtherMfg"})
 				add(C01Plan{Attack: "rogueOldEpoch"})
 				add(C01Plan{Attack: "rogueAppend"})
+				add(C01Plan{Attack: "rogueBadHeaderHash"})
+				add(C01Plan{Attack: "rogueGoodForgedEntry"})
 				add(C01Plan{Attack: "replay61"})
 				if chain >= 2 {
 					add(C01Plan{Attack: "rogueSplice"})
@@ -302,33 +306,68 @@ func hashFor(alg protocol.HashAlg) hash.Hash {
 }
 
 // forgeEntry appends to ov an entry naming next, signed by signer (who need
-// not be the current owner).
-func forgeEntry(ov *fdo.Voucher, signer, next *KeyEntry, cfg KeyCfg) (*fdo.Voucher, error) {
-	last := ov.Entries[len(ov.Entries)-1]
-	alg := ov.Entries[0].Payload.Val.PreviousHash.Algorithm
-	h := hashFor(alg)
-	b, err := cbor.Marshal(last)
-	if err != nil {
-		return nil, err
+// not be the current owner); edit may alter the payload before signing.
+func forgeEntry(ov *fdo.Voucher, signer, next *KeyEntry, cfg KeyCfg, edit ...func(*fdo.VoucherEntryPayload)) (*fdo.Voucher, error) {
+	devPub := (*ov.CertChain)[0].PublicKey
+	alg := protocol.Sha384Hash
+	if hashBits(devPub) == 256 || hashBits(signer.Key.Public()) == 256 {
+		alg = protocol.Sha256Hash
 	}
-	h.Write(b)
+	if len(ov.Entries) > 0 {
+		alg = ov.Entries[0].Payload.Val.PreviousHash.Algorithm
+	}
+	h := hashFor(alg)
+	if len(ov.Entries) > 0 {
+		b, err := cbor.Marshal(ov.Entries[len(ov.Entries)-1])
+		if err != nil {
+			return nil, err
+		}
+		h.Write(b)
+	} else {
+		b, _ := cbor.Marshal(&ov.Header.Val)
+		h.Write(b)
+		b, _ = cbor.Marshal(ov.Hmac)
+		h.Write(b)
+	}
+	hh := hashFor(alg)
+	hh.Write(ov.Header.Val.GUID[:])
+	hh.Write([]byte(ov.Header.Val.DeviceInfo))
 	pk, err := PublicKeyFor(cfg, next)
 	if err != nil {
 		return nil, err
 	}
-	var entry cose.Sign1Tag[fdo.VoucherEntryPayload, []byte]
-	entry.Payload = cbor.NewByteWrap(fdo.VoucherEntryPayload{
+	payload := fdo.VoucherEntryPayload{
 		PreviousHash: protocol.Hash{Algorithm: alg, Value: h.Sum(nil)},
-		HeaderHash:   ov.Entries[0].Payload.Val.HeaderHash,
+		HeaderHash:   protocol.Hash{Algorithm: alg, Value: hh.Sum(nil)},
 		Extra:        cbor.NewBstr(map[int][]byte(nil)),
 		PublicKey:    *pk,
-	})
+	}
+	for _, e := range edit {
+		e(&payload)
+	}
+	var entry cose.Sign1Tag[fdo.VoucherEntryPayload, []byte]
+	entry.Payload = cbor.NewByteWrap(payload)
 	if err := entry.Sign(signer.Key, nil, nil, SignOpts(signer, cfg.PSS())); err != nil {
 		return nil, err
 	}
 	out := *ov
 	out.Entries = append(append([]cose.Sign1Tag[fdo.VoucherEntryPayload, []byte](nil), ov.Entries...), entry)
 	return &out, nil
+}
+
+// hashBits is FDO's hash strength for a key: 256 for P-256/RSA2048, 384 for
+// P-384/RSA3072 (FDO 1.1 §3.3.2).
+func hashBits(pub any) int {
+	switch k := pub.(type) {
+	case *ecdsa.PublicKey:
+		return k.Curve.Params().BitSize
+	case *rsa.PublicKey:
+		if k.N.BitLen() <= 2048 {
+			return 256
+		}
+		return 384
+	}
+	return 0
 }
 
 func c01Run(env *Env, pl *C01Plan, collect map[c01Target][]byte) {
@@ -632,6 +671,33 @@ func c01Run(env *Env, pl *C01Plan, collect map[c01Target][]byte) {
 		s.AddRogueOwner("rogue", "att2", fv)
 		ownerNode, tampered = "rogue", true
 		o.Fault("inject")
+	case "rogueBadHeaderHash":
+		// the legitimate signer (manufacturer) extends with a wrong header hash:
+		// only the header-hash comparison stands between this chain and acceptance
+		fv, err := forgeEntry(chain[0], s.Keys.Get("mfg", cfg.Fam()), s.Keys.Get("owner1", cfg.Fam()), cfg, func(p *fdo.VoucherEntryPayload) {
+			p.HeaderHash.Value = append([]byte(nil), p.HeaderHash.Value...)
+			p.HeaderHash.Value[0] ^= 0x40
+		})
+		if err != nil {
+			harnessFail("forge-entry", err)
+			return
+		}
+		s.AddRogueOwner("rogue", "owner1", fv)
+		ownerNode, tampered = "rogue", true
+		o.Fault("inject")
+	case "rogueGoodForgedEntry":
+		// control for the entry builder: a correct entry by the legitimate
+		// signer must be accepted
+		fv, err := forgeEntry(chain[0], s.Keys.Get("mfg", cfg.Fam()), s.Keys.Get("owner1", cfg.Fam()), cfg)
+		if err != nil {
+			harnessFail("forge-entry", err)
+			return
+		}
+		s.AddRogueOwner("rogue", "owner1", fv)
+		ownerNode, mustReject = "rogue", false
+		for _, on := range []string{"rogue"} {
+			s.Nodes[on].Mods = &ModSM{Factory: PingFactory(s.Nodes[on], rec, payloads)}
+		}
 	case "rogueSplice":
 		// the first extension made twice with different extra info; the tail of
 		// the chain was made over the first variant
@@ -697,6 +763,11 @@ func c01Run(env *Env, pl *C01Plan, collect map[c01Target][]byte) {
 		o.Nontrivial = true
 	}
 	switch {
+	case pl.Attack == "rogueGoodForgedEntry":
+		if obs.Err != nil {
+			o.Violate("C01", "honest-run-must-succeed", "forged-entry-control|"+pl.Key, "a correct chain built by the harness' entry builder was refused: %s", obs)
+		}
+		o.Class = "control-ok"
 	case pl.Attack == "none":
 		if obs.Err != nil || obs.ModCalls == 0 || !obs.CredChanged {
 			o.Violate("C01", "honest-run-must-succeed", pl.Key, "honest TO2 failed: %s", obs)
